@@ -14,7 +14,9 @@ Open Scope Z_scope.
    the summary budget is max_summary_events; the over-limit branch of the gate uses
    DEFAULT_CAPS, emits exactly one diagnostic (a warning of category "analysis"), clears the
    plan and returns before any analysis is started; in runtime.rs the plan is only stored,
-   cleared, returned by its accessor and consulted by function_is_pruned / stmt_is_pruned. *)
+   cleared, returned by its accessor and consulted by function_is_pruned / stmt_is_pruned;
+   the derived bounds use u64 and the saturating operations modelled (plus the one unchecked
+   `+`); run_with_analysis installs the binding facts and the plan option unconditionally. *)
 Theorem C18_model_follows_source :
   map (fun m => (metric_name m, cap_field_name (metric_cap m), ">"%string)) all_metrics
     = GenLimits.stage_order /\
@@ -28,11 +30,18 @@ Theorem C18_model_follows_source :
    GenLimits.gate_analyses_after_branch = true) /\
   GenLimits.runtime_plan_users =
     ["new_with_host_policy"; "run_with_analysis"; "function_is_pruned"; "stmt_is_pruned";
-     "optimization_plan"]%string.
+     "optimization_plan"]%string /\
+  (GenLimits.summary_event_bound_types = summary_bound_types_modelled /\
+   GenLimits.summary_event_bound_ops = summary_bound_ops_modelled /\
+   GenLimits.liveness_event_bound_types = liveness_bound_types_modelled /\
+   GenLimits.liveness_event_bound_ops = liveness_bound_ops_modelled) /\
+  (GenLimits.run_with_analysis_stmts = run_with_analysis_modelled /\
+   GenLimits.run_with_analysis_branches = 0).
 Proof.
   exact (conj stage_order_matches_source (conj caps_fields_match_source
         (conj summary_budget_is_summary_cap (conj gate_shape_matches_source
-         runtime_plan_users_match_source)))).
+        (conj runtime_plan_users_match_source (conj derived_bound_arithmetic_matches_source
+         run_with_analysis_matches_source)))))).
 Qed.
 Print Assumptions C18_model_follows_source.
 
